@@ -178,3 +178,24 @@ pub proof fn lemma_rename(o: Dir, n: Dir, from: PathBuf, to: PathBuf)
 
 /// the file an open writer appends to (fixed when `open_file` creates the writer)
 pub uninterp spec fn wpath(w: LineWriter<File>) -> PathBuf;
+
+pub proof fn lemma_total_mono(ms: Seq<String>, i: int)
+    requires 0 <= i <= ms.len(),
+    ensures total_bytes(ms.take(i)) <= total_bytes(ms),
+    decreases ms.len() - i,
+{
+    if i == ms.len() {
+        assert(ms.take(i) =~= ms);
+    } else {
+        lemma_total_step(ms, i);
+        lemma_total_mono(ms, i + 1);
+    }
+}
+
+/// a listing has as many entries as the class has files
+pub broadcast proof fn lemma_listing_len(l: Seq<PathBuf>, d: Dir)
+    requires #[trigger] is_listing(l, d),
+    ensures l.len() == d.count(),
+{
+    l.unique_seq_to_set();
+}
